@@ -55,6 +55,10 @@ class World:
         elif kind == "delete_each_of_type":
             for i in model.agent_ids(op["type"]):
                 model.delete_agent(i)
+        elif kind == "configure" and op.get("via") == "model":
+            # the dictionary form (what scenario files use): run specs, properties and agents in one call
+            model.configure({"runspecs": {"starttime": model.starttime, "stoptime": model.stoptime, "dt": model.dt}, "properties": {},
+                             "agents": [{"name": t, "count": c} for t, c in op["spec"]]})
         elif kind == "configure":
             model.configure_agents([{"name": t, "count": c} for t, c in op["spec"]])
         elif kind == "configure_bad":
